@@ -28,6 +28,7 @@ import (
 	"strings"
 	"sync"
 	"sync/atomic"
+	"syscall"
 	"time"
 
 	"github.com/spf13/afero"
@@ -63,12 +64,13 @@ type env struct {
 func (e *env) p(rel string) string { return filepath.Join(e.root, rel) }
 
 type entryPoint struct {
-	needs    string // fixtures: s(rc tree) w(ide dir) b(ig file) z(ip archive); derived in needsOf
-	name     string
-	method   string // FS method exercised (for the reflection coverage check)
-	mutating bool
-	fanout   bool // fans out goroutines (GarbageCollect): different bound
-	call     func(ctx context.Context, e *env) error
+	needs            string // fixtures: s(rc tree) w(ide dir) b(ig file) z(ip archive); derived in needsOf
+	name             string
+	method           string // FS method exercised (for the reflection coverage check)
+	mutating         bool
+	fanout           bool // fans out goroutines (GarbageCollect): different bound
+	refuseUntilChown bool // backend removals fail with EPERM until a Chown went through
+	call             func(ctx context.Context, e *env) error
 }
 
 func nopWalk(path string, info os.FileInfo, err error) error { return err }
@@ -137,6 +139,11 @@ func entryPoints() []entryPoint {
 			return e.vfs.RemoveWithContextAndExclusionPatterns(ctx, e.p("src"), "^never-matches-zzz$")
 		}},
 		{name: "RemoveWithPrivileges", method: "RemoveWithPrivileges", mutating: true, call: func(ctx context.Context, e *env) error { return e.vfs.RemoveWithPrivileges(ctx, e.p("src")) }},
+		// every removal is refused (EPERM) until the ownership of the tree was changed: the privileged removal goes through
+		// its second attempt, and past it when that one fails for another reason than the context
+		{name: "RemoveWithPrivileges#refused-until-chown", method: "RemoveWithPrivileges", mutating: true, refuseUntilChown: true, call: func(ctx context.Context, e *env) error {
+			return e.vfs.RemoveWithPrivileges(ctx, e.p("src"))
+		}},
 		{name: "CleanDirWithContext", method: "CleanDirWithContext", mutating: true, call: func(ctx context.Context, e *env) error { return e.vfs.CleanDirWithContext(ctx, e.p("src")) }},
 		{name: "CleanDirWithContextAndExclusionPatterns", method: "CleanDirWithContextAndExclusionPatterns", mutating: true, call: func(ctx context.Context, e *env) error {
 			return e.vfs.CleanDirWithContextAndExclusionPatterns(ctx, e.p("src"), "^never-matches-zzz$")
@@ -373,6 +380,11 @@ func runOnce(ep entryPoint, mem bool, scratch string, k int64, keepTrace bool) (
 		before = takeSnap()
 	}
 	ctx, cancel := context.WithCancel(context.Background())
+	if k%2 == 0 {
+		// half of the runs end their context with a caller-defined cause: the kind reported is still cancelled/timeout
+		cctx, ccancel := context.WithCancelCause(context.Background())
+		ctx, cancel = cctx, func() { ccancel(errShuttingDown) }
+	}
 	defer cancel()
 	res := &runResult{}
 	var count, after64, mutAfter, lists atomic.Int64
@@ -388,7 +400,18 @@ func runOnce(ep entryPoint, mem bool, scratch string, k int64, keepTrace bool) (
 			return nil
 		})
 	}
+	var chowned atomic.Bool
 	mon.Before = func(e *fsmon.Event) {
+		if ep.refuseUntilChown {
+			switch e.Op {
+			case fsmon.OpChown:
+				chowned.Store(true)
+			case fsmon.OpRemove, fsmon.OpRemoveAll:
+				if !chowned.Load() {
+					e.Inject = &os.PathError{Op: "remove", Path: e.Path, Err: syscall.EPERM}
+				}
+			}
+		}
 		isAfter := cancelledAt.Load() != 0
 		if st := states[e.Path]; st != nil {
 			// lock-free: a lock here would queue the goroutines of the fan-out between their context check and this hook
@@ -475,6 +498,8 @@ func runOnce(ep entryPoint, mem bool, scratch string, k int64, keepTrace bool) (
 	}
 	return res, before, after, nil
 }
+
+var errShuttingDown = errors.New("service is shutting down (caller-defined cause)")
 
 func kindOK(err error) bool {
 	return commonerrors.Any(err, commonerrors.ErrCancelled, commonerrors.ErrTimeout)
